@@ -98,7 +98,9 @@ def run_batch(pid, stratum, seed, start, n, tier, scratch, env, batch_wall):
                     j = json.loads(line)
                 except Exception:
                     continue
-                if "start" in j:
+                if "skipped" in j:
+                    recs.append({"s": stratum, "i": -1, "skipped": j["skipped"]})
+                elif "start" in j:
                     last_started = j["start"]
                 elif j.get("done"):
                     done = True
@@ -247,10 +249,10 @@ def _run(pid, prop, tier, seed, replay, scale, only, scratch, t0):
                     recs.append(r)
             except Exception as e:  # infrastructure
                 infra.append(f"{tag}{name}: {e!r}")
-    return fold(pid, prop, tier, seed, recs, infra, t0)
+    return fold(pid, prop, tier, seed, recs, infra, t0, partial=bool(only) or scale < 1)
 
 
-def fold(pid, prop, tier, seed, recs, infra, t0):
+def fold(pid, prop, tier, seed, recs, infra, t0, partial=False):
     from vf.common import unpack  # noqa: F401
 
     per_stratum = {}
@@ -268,6 +270,9 @@ def fold(pid, prop, tier, seed, recs, infra, t0):
     for r in recs:
         st = r.get("tag", "") + str(r.get("s"))
         ps = per_stratum.setdefault(st, {"cases": 0, "violations": 0, "nontrivial": 0, "fuel_max": 0, "slowest_s": 0.0})
+        if "skipped" in r:
+            ps["skipped_after_violations"] = ps.get("skipped_after_violations", 0) + r["skipped"]
+            continue
         if "infra" in r:
             inconclusive.append({"stratum": st, "index": r.get("i"), "reason": r["infra"]})
             continue
@@ -342,7 +347,7 @@ def fold(pid, prop, tier, seed, recs, infra, t0):
 
     # deciding monitors must have observed something
     required = getattr(prop, "REQUIRED_EVENTS", {}).get(tier, getattr(prop, "REQUIRED_EVENTS", {}).get("any", []))
-    for ev in required:
+    for ev in ([] if partial else required):  # partial (--only / --scale<1) development runs skip this
         if events.get(ev, 0) == 0 and not new_violations:
             inconclusive.append({"stratum": "*", "index": None, "reason": f"deciding monitor '{ev}' observed no event"})
     for msg in infra:
